@@ -8,9 +8,9 @@ CHECK = {
  'title': 'Concurrent activities are free of data races',
  'level': 'exploration',
  'technique': 'systematic phase-offset schedules of all daemon activities (real RunDaemon + REST handlers + metrics gather) in a virtual-time bubble, each execution checked by the happens-before race detector; reports attributed to top fan2go frames',
- 'rule': 'one race-instrumented process per schedule: scenario {regulation, stall raises, initialisation in progress} x (API period, metrics period) x API phase offset x metrics phase offset (grid of 4 offsets quick / 9 thorough); '
+ 'rule': 'one race-instrumented process per schedule: scenario {regulation, stall raises, initialisation in progress, fans without PWM read-back and nothing stored (serial and parallel start)} x (API period, metrics period) x API phase offset x metrics phase offset (grid of 4 offsets quick / 9 thorough); '
          'three fans (two hwmon, one file) share function/pid/linear curves and one sensor; the API goroutine requests every list and item endpoint, the metrics goroutine gathers all collectors; each run covers start-up, '
-         'regulation cycles, RPM polls, stall raises and shutdown restoration. A report is attributed to the top non-harness fan2go frame of each access; every function so named is a violation unless listed. '
+         'regulation cycles, RPM polls, stall raises and shutdown restoration. A report is attributed to the racy SITE of each access: top non-harness fan2go function plus the text of the source statement (independent of line numbers and closure numbering); every site so named is a violation unless listed. '
          'distinct_nontrivial = distinct unordered frame pairs observed.',
  'assumptions': ['Go race detector (happens-before; reports a race whenever two conflicting accesses are not ordered by the program\'s own synchronisation, whether or not they overlapped in this run)',
                  'device files are real tmpfs files; the harness adds no locks around them (no harness-made happens-before edges)',
